@@ -376,12 +376,27 @@ func drawScenario(rt *rapid.T) *scenario {
 	nonce := 0
 	for i, n := 0, rapid.IntRange(1, 4).Draw(rt, "nrounds"); i < n; i++ {
 		var r round
+		r.KnowMode = rapid.SampledFrom(knowModes).Draw(rt, "knowmode")
 		for j, k := 0, rapid.IntRange(0, 3).Draw(rt, "nops"); j < k; j++ {
 			op := drawOp(rt, m)
 			m.apply(op)
 			r.Ops = append(r.Ops, op)
 		}
-		r.KnowMode = rapid.SampledFrom(knowModes).Draw(rt, "knowmode")
+		if r.KnowMode == "stale" && len(m.installed) > 0 {
+			// construct staleness: something the listener accepts now is removed in this round
+			// (the dialer will afterwards be told it is still supported)
+			stale := false
+			for _, id := range reqUniverse {
+				if m.ever[id] && !m.accepted(id) {
+					stale = true
+				}
+			}
+			if !stale {
+				op := lop{Op: "remove", Pid: m.installed[rapid.IntRange(0, len(m.installed)-1).Draw(rt, "stale-rm")].name}
+				m.apply(op)
+				r.Ops = append(r.Ops, op)
+			}
+		}
 		r.Know = drawKnowledge(rt, m, r.KnowMode)
 		for j, k := 0, rapid.IntRange(1, 4).Draw(rt, "nopens"); j < k; j++ {
 			nonce++
@@ -910,7 +925,7 @@ func sortedLabels(m map[string]bool, extra ...string) []string {
 // TestNegotiation is the generated check described in the package comment.
 func TestNegotiation(t *testing.T) {
 	name := t.Name()
-	hx.Check(t, 800, 30000, 0, func(rt *rapid.T) {
+	hx.Check(t, 12000, 600000, 0, func(rt *rapid.T) {
 		sc := drawScenario(rt)
 		var oc *outcome
 		hx.Bubble(t, rt, func() {
@@ -925,4 +940,74 @@ func TestNegotiation(t *testing.T) {
 			stats.Sample(name, map[string]any{"scenario": sc, "trace": oc.trace})
 		}
 	})
+}
+
+// TestSmallExhaustive enumerates a small domain completely (seed independent floor under
+// the random search): every listener configuration of a fixed list (no handler, exact,
+// prefix / path / semver / alias matchers, overlapping pairs) x every ordered request over
+// {X, Y} x every knowledge state over {X, Y} (+ "as identify left it") x the four host
+// pairings; each scenario opens once with the handlers installed and once more after all
+// of them were removed (so remembered knowledge becomes stale).
+func TestSmallExhaustive(t *testing.T) {
+	name := t.Name()
+	const X, Y = protocol.ID("/a/1.0.0"), protocol.ID("/a/1.1.0")
+	configs := [][]lop{
+		nil,
+		{{Op: "set", Pid: X}},
+		{{Op: "set", Pid: Y}},
+		{{Op: "match", Pid: "/a", Kind: "prefix"}},
+		{{Op: "match", Pid: "/a", Kind: "path"}},
+		{{Op: "match", Pid: Y, Kind: "semver"}}, // accepts X and Y
+		{{Op: "match", Pid: X, Kind: "semver"}}, // accepts X only
+		{{Op: "match", Pid: "/b", Kind: "alias", Target: X}},
+		{{Op: "match", Pid: X, Kind: "alias", Target: Y}}, // advertised as X, accepts only Y
+		{{Op: "set", Pid: X}, {Op: "match", Pid: "/a", Kind: "prefix"}},
+		{{Op: "match", Pid: "/a", Kind: "prefix"}, {Op: "set", Pid: X}},
+		{{Op: "set", Pid: X}, {Op: "set", Pid: X}}, // replaced registration
+	}
+	reqs := [][]protocol.ID{{X}, {Y}, {X, Y}, {Y, X}}
+	type know struct {
+		mode string
+		ids  []protocol.ID
+	}
+	knows := []know{{"keep", nil}, {"fixed", nil}, {"fixed", []protocol.ID{X}}, {"fixed", []protocol.ID{Y}}, {"fixed", []protocol.ID{X, Y}}}
+	pairs := [][2]string{{"basic", "basic"}, {"blank", "blank"}, {"basic", "blank"}, {"blank", "basic"}}
+	idx := 0
+	for ci, cfg := range configs {
+		for _, req := range reqs {
+			for _, kn := range knows {
+				for _, pr := range pairs {
+					idx++
+					if !hx.Mine(idx) {
+						continue
+					}
+					sc := &scenario{Dialer: pr[0], Listener: pr[1], Limited: idx%5 == 0, Init: cfg, Key: uint64(idx)}
+					var removes []lop
+					seen := map[protocol.ID]bool{}
+					for _, op := range cfg {
+						if !seen[op.Pid] {
+							seen[op.Pid] = true
+							removes = append(removes, lop{Op: "remove", Pid: op.Pid})
+						}
+					}
+					sc.Rounds = []round{
+						{KnowMode: kn.mode, Know: kn.ids, Opens: []openSpec{{Req: req, nonce: mix(uint64(idx) * 2)}}},
+						{Ops: removes, KnowMode: kn.mode, Know: kn.ids, Opens: []openSpec{{Req: req, nonce: mix(uint64(idx)*2 + 1)}}},
+					}
+					var oc *outcome
+					synctest.Test(t, func(t *testing.T) {
+						oc = runScenario(t, sc)
+					})
+					if oc == nil {
+						t.Fatalf("scenario %s failed", sc.fingerprint())
+					}
+					stats.CaseEnumerated(name, oc.nontrivial, sortedLabels(oc.labels, "pair:"+pr[0]+"->"+pr[1], fmt.Sprintf("config:%d", ci))...)
+					if stats.WantSample(name) {
+						stats.Sample(name, map[string]any{"scenario": sc, "trace": oc.trace})
+					}
+				}
+			}
+		}
+	}
+	stats.Exhaustive(name)
 }
